@@ -32,7 +32,7 @@ func NewDG1(data []byte) (dg1 *DG1, err error) {
 		return nil, fmt.Errorf("[NewDG1] error: %w", err)
 	}
 
-	rootNode := nodes.NodeByTag(DG1Tag)
+	rootNode := lookupRootNode(nodes, DG1Tag)
 
 	if !rootNode.IsValidNode() {
 		return nil, fmt.Errorf("root node (%x) missing", DG1Tag)
